@@ -287,7 +287,7 @@ inductive Out
   | dec (d : Option Blk)
   | num (n : Nat)
   | log (evs : List CB.Ev)
-deriving Repr
+deriving Repr, DecidableEq
 
 /-- has an `entry` op with this id happened? -/
 def usedId (s : St R) (id : Nat) : Bool := s.used.contains id
